@@ -1,21 +1,9 @@
 package c11
 
-import (
-	"strings"
+import "verif/report"
 
-	"verif/report"
-)
-
-// classify assigns root-cause classes to violations that are recorded as known
-// findings in /verif/findings.d/C11.json. Each predicate is keyed to one root
-// cause; anything else stays unclassified and is reported as a VIOLATION.
-func classify(v *report.Violation) {
-	// Echo-Request carrying fewer than 4 data bytes (no room for the magic
-	// number) delivered to the LCP automaton in Opened: receiveEchoRequest
-	// slices replyData[:4] of a shorter buffer. Crash-freedom of the PPPoE
-	// parsers is property C09, which owns the repair.
-	if v.Kind == "panic" && (v.Site == "Echo0" || v.Site == "Echo3") &&
-		strings.Contains(v.Detail, "receiveEchoRequest") && strings.Contains(v.Detail, "slice bounds out of range [:4]") {
-		v.Class = "C11-K1-lcp-echo-request-short-data-panic"
-	}
-}
+// classify assigns root-cause classes of known findings (/verif/findings.d/C11.json).
+// There are none at present: C11-K1 (LCP Echo-Request with fewer than 4 data
+// bytes panicked in receiveEchoRequest) was repaired by the C09 fixes, so a
+// regression of it is reported as a VIOLATION like anything else.
+func classify(v *report.Violation) {}
